@@ -1845,6 +1845,14 @@ class BootstrapElectionModel(BaseElectionModel):
             aggregate_dem_prob_B_1 = expit(self.T * self.divided_error_B_1)
             aggregate_dem_prob_B_2 = expit(self.T * self.divided_error_B_2)
 
+        if self.called_contests is not None:
+            # a called contest is decided in every draw: otherwise its weight still takes part in ranking the draws by
+            # their national total, and with it in choosing the draws the bounds are read from
+            called_lhs = np.isclose(self.called_contests, 1)
+            called_rhs = np.isclose(self.called_contests, 0)
+            aggregate_dem_prob_B_1 = np.where(called_lhs, 1, np.where(called_rhs, 0, aggregate_dem_prob_B_1))
+            aggregate_dem_prob_B_2 = np.where(called_lhs, 1, np.where(called_rhs, 0, aggregate_dem_prob_B_2))
+
         # multiply by weights of each contest
         aggregate_dem_vals_B_1 = nat_sum_data_dict_sorted_vals * aggregate_dem_prob_B_1
         aggregate_dem_vals_B_2 = nat_sum_data_dict_sorted_vals * aggregate_dem_prob_B_2
